@@ -103,6 +103,12 @@ func censusStatus(s *SetSpec, pods []PodSpec) {
 //
 //	dims: replicas, slot mask, policy, strategy shape, sameRev, statusMode, deleting, pod state per ordinal
 func PodsDomain(maxOrd, maxRep, nph int, withDeleting bool) *Domain {
+	return PodsDomainAt(0, maxOrd, maxRep, nph, withDeleting)
+}
+
+// PodsDomainAt: the same domain moved up to the ordinals base..base+maxOrd (the slots below base are all deleted), so
+// that with base 8 the ordinals cross from one digit to two - where the order of names is not the order of ordinals.
+func PodsDomainAt(base, maxOrd, maxRep, nph int, withDeleting bool) *Domain {
 	nOrd := maxOrd + 1
 	nStrat := nOrd + 1 + 2 + 2 // RU+block part 0..nOrd ; RU without block ; OnDelete ; OnDelete with a left-over block (partition 0, 1)
 	nPod := 1 + nph*2*3
@@ -115,16 +121,30 @@ func PodsDomain(maxOrd, maxRep, nph int, withDeleting bool) *Domain {
 		dims = append(dims, nPod)
 	}
 	d := &Domain{Name: fmt.Sprintf("pods(ord<=%d,rep<=%d,phases=%d,deleting=%v)", maxOrd, maxRep, nph, withDeleting), Dims: dims}
+	if base > 0 {
+		d.Name = fmt.Sprintf("pods(ord %d..%d,rep<=%d,phases=%d,deleting=%v)", base, base+maxOrd, maxRep, nph, withDeleting)
+	}
+	low := []int{}
+	for b := 0; b < base; b++ {
+		low = append(low, b)
+	}
 	d.Make = func(ix []int) *Scenario {
 		sc := &Scenario{Dom: ix}
 		s := &sc.Set
 		s.Name = "foo"
 		s.Replicas = int32(ix[0])
-		s.SlotsAnn = slotsAnn(maskToSlots(ix[1], nOrd))
+		sl := append([]int{}, low...)
+		for _, b := range maskToSlots(ix[1], nOrd) {
+			sl = append(sl, base+b)
+		}
+		s.SlotsAnn = slotsAnn(sl)
 		s.Policy = []string{"OrderedReady", "Parallel"}[ix[2]]
 		switch {
 		case ix[3] <= nOrd:
 			s.Strat, s.RuBlock, s.PartPresent, s.Part = "RollingUpdate", true, true, int32(ix[3])
+			if ix[3] > 0 {
+				s.Part += int32(base)
+			}
 		case ix[3] == nOrd+1:
 			s.Strat = "RollingUpdate"
 		case ix[3] == nOrd+2:
@@ -140,7 +160,7 @@ func PodsDomain(maxOrd, maxRep, nph int, withDeleting bool) *Domain {
 		s.Deleting = ix[6] == 1
 		sc.Revs = stdRevs()
 		for o := 0; o < nOrd; o++ {
-			if p, ok := decodePod(o, ix[7+o], nph); ok {
+			if p, ok := decodePod(base+o, ix[7+o], nph); ok {
 				sc.Pods = append(sc.Pods, p)
 			}
 		}
